@@ -70,7 +70,13 @@ func harness_C11_group() {
 		if nondetBool(fmt.Sprintf("dst.%d", t)) {
 			dst = 1
 		}
+		// the same IPv4 address arrives as 4 or 16 bytes depending on the listener
+		myips := ips
+		if verifParam("ipforms", 0) == 1 && nondetBool(fmt.Sprintf("ip4.%d", t)) {
+			myips = []net.IP{ips[0].To4(), ips[1].To4()}
+		}
 		go func(t, ip, src, dst int) {
+			ips := myips
 			defer wg.Done()
 			if hold && t == 1 {
 				defer close(release)
